@@ -40,7 +40,7 @@ def main():
     first = {'caught': {}, 'exit2': {}, 'missed': []}
     for name in ('_first_run_round2.json', '_first_run_round3.json',
                  '_first_run_round4.json', '_first_run_round5.json',
-                 '_first_run_round6.json'):
+                 '_first_run_round6.json', '_first_run_round7.json'):
         fr = os.path.join(sdir, name)
         if os.path.exists(fr):
             d = json.load(open(fr))
@@ -82,13 +82,13 @@ def main():
                for k, v in sorted(res.items()) if k != 'error']
         meta = {
             'id': sid, 'property': prop, 'property_title': PROPS.get(prop, ''),
-            'round': 6 if sid.startswith('r6-') else 5 if sid.startswith('r5-') else 4 if sid.startswith('r4-') else (
+            'round': 7 if sid.startswith('r7-') else 6 if sid.startswith('r6-') else 5 if sid.startswith('r5-') else 4 if sid.startswith('r4-') else (
                 3 if sid.startswith('r3-') else (
                     2 if sid.startswith('r2-') else 1)),
             'source': 'fresh sub-agent given only the property text and a '
                       'scratch worktree of /repo (nothing from /verif)',
             'base_commit': old.get('base_commit', '7f36add' if sid.startswith(
-                'r6-') else '8a43883' if sid.startswith('r5-') else '9b5cc53'),
+                ('r6-', 'r7-')) else '8a43883' if sid.startswith('r5-') else '9b5cc53'),
             'note': ('the demonstration was confirmed on /repo at the base '
                      'commit; /repo has since gained the fix commits 8a43883 '
                      '(RANDBETWEEN), 347f48b (lower-case error literals) and '
